@@ -8,6 +8,8 @@ From Bifrost Require Import Lib.Base Lib.Varint Lib.Chunk Frame.Model.
 Inductive c07_case :=
 | Marsh (pid out : bytes)
 | Hdr (de : bool) (chunks : list nat) (data : bytes) (cls : nat) (pid rest : bytes)
+| Eqv (p1 l1 r1 p2 l2 r2 : bytes) (equivalent : bool)   (* NewHandleMountedStream(..).IsEquivalent(..) *)
+| Multi (evs : list bev) (obs : list bobs)               (* several streams on one bus, within the dispose delay *)
 | Disp (de : bool) (chunks : list nat) (local remote data : bytes) (dispatched : bool) (pid l r rest : bytes).
 
 Definition coarse07 (k : nat) : nat :=
@@ -16,8 +18,18 @@ Definition coarse07 (k : nat) : nat :=
   else if (k =? E_PID_UTF8)%nat then 8%nat
   else 2%nat.
 
+Definition bobs_eqb (a b : bobs) : bool :=
+  match a, b with
+  | Served o s r, Served o' s' r' => triple_eqb o o' && triple_eqb s s' && bytes_eqb r r'
+  | Rejected _, Rejected _ => true
+  | BPanic, BPanic => true
+  | _, _ => false
+  end.
+
 Definition c07_agree (c : c07_case) : bool :=
   match c with
+  | Eqv p1 l1 r1 p2 l2 r2 e => Bool.eqb (triple_eqb (p1, l1, r1) (p2, l2, r2)) e
+  | Multi evs obs => list_eqb bobs_eqb (bus_run [] evs) obs
   | Marsh pid out => bytes_eqb (marshal_header pid) out
   | Hdr de ch data cls pid rest =>
       match handle_incoming_de de [] [] (ch, data) with
